@@ -14,6 +14,7 @@ import DtailModel.Lemmas.GenDecode
 import DtailModel.Lemmas.GenGrep
 import DtailModel.Lemmas.GenQuery
 import DtailModel.Model.Base64
+set_option autoImplicit false
 namespace Dtail.C10
 open Dtail
 
